@@ -138,12 +138,16 @@ impl FileFormatter {
             cursors
         };
 
+        #[cfg(feature = "verif")]
+        let paths = crate::verif::Paths::new(paths);
         paths
             .into_par_iter()
             .map_init(Vec::<u8>::new, |input_buf, file_path| {
                 input_buf.clear();
 
                 let file_path = file_path?;
+                #[cfg(feature = "verif")]
+                crate::verif::point("open", &file_path);
                 let mut file = open_options
                     .open(&file_path)
                     .with_context(|| format!("failed to open '{}'", file_path.display()))?;
@@ -192,11 +196,15 @@ impl FileFormatter {
                     );
                     return Ok(());
                 }
+                #[cfg(feature = "verif")]
+                crate::verif::point("write", file_path);
                 file.seek(SeekFrom::Start(0)).with_context(|| {
                     format!("failed to seek to start of file: '{}'", file_path.display())
                 })?;
                 let new_len = Self::write_file(&mut *file, decoded_file, formatted_output)
                     .with_context(|| format!("failed to write to '{}'", file_path.display()))?;
+                #[cfg(feature = "verif")]
+                crate::verif::point("set_len", file_path);
                 file.set_len(new_len).with_context(|| {
                     format!("failed to set file length: '{}'", file_path.display())
                 })?;
